@@ -14,16 +14,12 @@ THEOREMS = ["C18_childIndex_bit", "removeDim_testBit", "C18_child_ranges", "C18_
             "C18_branch_entities_generic", "C18_branch_entities_unique",
             # 1-dim root push-down / outlier folding, and the forest entry points
             "C18_fold_outlier", "C18_push_down_invariant", "C18_tree1_invariant", "C18_pushed_down_nodes",
-            "C18_forest_trees1", "C18_forest_tree"]
+            "C18_forest_trees1", "C18_forest_tree", "C18_subnodes_are_projections", "childRanges_erase", "genCombinations_pred"]
 PARTIAL = ["the theorems are conditional on the build finishing (`Forest.init = ok`, `tree? = some`): the model's recursion budget stands for "
            "Python's recursion limit (known finding C07 recursion-depth-add_row); that the budget suffices for a given table is not proved",
            "clause 'tight range = hull of the in-range rows': proved as 'hull of the rows the node holds that were not folded in as outliers'; in "
            ">= 2-dim trees rows beyond a column's final root range go through ordinary insertion and widen the tight range (known finding C18 "
-           "hull-dims>=2-row-beyond-final-root-range)",
-           "the sub-node clause ('a lower-dimensional projection holds >= threshold entities') is proved as: the branch is no stub, hence some "
-           "sub-node it was given passed its threshold (C18_not_stub_projection); that the sub-node handed to a child is the node of the "
-           "lower-dimensional tree with the child's ranges minus one dimension is evaluated by the oracle (find_projection), with the index "
-           "arithmetic proved (removeDim_testBit), not yet as a global theorem"]
+           "hull-dims>=2-row-beyond-final-root-range)"]
 ASSUMPTIONS = []
 TRUSTED = ["stream S-tree generators (tree_streams.gen_table)"]
 
